@@ -73,7 +73,7 @@ TESTED_NOT_PROVED = [
     "explicit_hydrogen=True exports of graphs with implicit hydrogens; core=False (full) exports on ITS graphs outside its_ok; h_to_explicit "
     "with its=True beyond the total count: correspondence + oracle only",
 ]
-LEVEL_TEXT = ("Machine-checked proof (Coq, 27 theorems, closed under the global context) over an executable model of the GML writer/reader at "
+LEVEL_TEXT = ("Machine-checked proof (Coq, 29 theorems, closed under the global context) over an executable model of the GML writer/reader at "
               "record level, of its_to_gml / gml_to_its / smart_to_gml / get_rc / its_decompose / ITSGraph at graph level, of h_to_explicit / "
               "h_to_implicit, and of the attribute copying of MolToGraph / GraphToMol: label round trip for every element symbol and every "
               "charge; ITS -> GML -> ITS restores atoms, both-side charges and (before, after) orders for every reaction-centre-shaped ITS, "
